@@ -801,6 +801,10 @@ class Exec:
     def resolve_static(self, name):
         from . import models
         cs = self.vc.cs
+        if name.endswith('.init') and self.f.name.endswith('.init'):
+            # a package initialiser running the initialisers of its imports: whatever they do happens before this
+            # package's own assignments
+            return (name, None, 'havoc')
         cc = cs.funcs.get(name)
         if cc is not None and not cc.inline:
             return (name, cc, 'contract')
@@ -1456,7 +1460,8 @@ class Exec:
         # unknown callee: everything it could write is havocked, it may panic
         vc.havoc_calls.add(callee or 'dynamic call')
         fork = self.top is self and self.recovers()
-        if not fork:
+        init_dep = bool(callee) and callee.endswith('.init') and self.f.name.endswith('.init')
+        if not fork and not init_dep:
             self.oblige('callee-may-panic', 'call of %s (no contract)' % short_fn(self.prog, callee or 'function value'), self.reach, 'false', ['C03'], line)
         self.st.havoc_all()
         a = vc.declare(self.nm('alloc'), 'Int')
@@ -1817,6 +1822,7 @@ def verify_function(vc, func, contract):
     prog = vc.prog
     if contract is not None and isinstance(getattr(contract, 'opaque', None), list):
         vc.opaque_recs = set(contract.opaque)
+    vc.assume_globalinvs = bool(contract is not None and getattr(contract, 'uses_globals', False))
     ex = Exec(vc, func, contract)
     st = State(vc, {}, None, 0)
     a0 = vc.declare('alloc@0', 'Int', exact=True)
@@ -1840,6 +1846,15 @@ def verify_function(vc, func, contract):
             ev = SpecEval(vc, pkg, env, st, None)
             g = ex.eval_clause(ev, cl, 'requires', 'assume')
             vc.assume(g.term)
+        if getattr(contract, 'uses_globals', False):
+            # package-level invariants (verified on the package initialisers, never written afterwards)
+            for gpkg, cl in vc.cs.globalinvs:
+                ev = SpecEval(vc, gpkg, {}, st, None)
+                g = ex.eval_clause(ev, cl, 'globalinv', 'assume')
+                vc.assume(g.term)
+                note = 'A9: package-level variables keep the values their initialiser gave them (globalinv of %s: %s); the initialiser is verified, writes by other functions are excluded by a scan' % (gpkg.rsplit('/', 1)[-1], cl.text)
+                if note not in vc.cs.assumptions:
+                    vc.cs.assumptions.append(note)
     # vacuity guard: the precondition must be satisfiable
     o = vc.oblige('cover', 'pre', 'precondition is satisfiable', 'true', 'true', [], func.line)
     o.expect = 'sat'
